@@ -136,7 +136,16 @@ for spec in sys.argv[1:]:
         rs = jax.eval_shape(env.reset, key)
         j1 = jax.make_jaxpr(env.reset)(key)
         sj = jax.make_jaxpr(env.step)(jax.tree_util.tree_map(lambda s: jp.zeros(s.shape, s.dtype), rs), jp.zeros((env.action_size,), rs.reward.dtype))
-        out[spec] = [hashlib.sha256(str(j1).encode()).hexdigest(), hashlib.sha256(str(sj).encode()).hexdigest()]
+        import numpy as np
+        def dig(j):          # program text AND the values of its constants (index tables, masks, model leaves)
+            h = hashlib.sha256(str(j).encode())
+            for c in j.consts:
+                try:
+                    h.update(np.asarray(c).tobytes())
+                except Exception:
+                    h.update(repr(c).encode())
+            return h.hexdigest()
+        out[spec] = [dig(j1), dig(sj)]
     except Exception as e:
         out[spec] = ['error', type(e).__name__]
 print('DIGESTS ' + json.dumps(out))
